@@ -79,6 +79,19 @@ struct StreamIdentifier {
                      const address_type& server_addr, uint16_t server_port);
 
     /**
+     * Constructs a StreamIdentifier indicating the address family
+     *
+     * \param client_addr Client's address
+     * \param client_port Port's port
+     * \param server_addr Server's address
+     * \param server_port Server's port
+     * \param is_v6 Whether the addresses are IPv6 addresses
+     */
+    StreamIdentifier(const address_type& client_addr, uint16_t client_port,
+                     const address_type& server_addr, uint16_t server_port,
+                     bool is_v6);
+
+    /**
      * Indicates whether this stream identifier is lower than rhs
      */
     bool operator<(const StreamIdentifier& rhs) const;
@@ -92,11 +105,18 @@ struct StreamIdentifier {
     address_type max_address;
     uint16_t min_address_port;
     uint16_t max_address_port;
+    /**
+     * Whether the addresses are IPv6 ones: an IPv4 address and an IPv6 address that
+     * starts with the same 4 bytes followed by zeroes serialize to the same array
+     */
+    bool is_v6;
 
     static StreamIdentifier make_identifier(const PDU& packet);
     static StreamIdentifier make_identifier(const Stream& stream);
     static address_type serialize(IPv4Address address);
     static address_type serialize(const IPv6Address& address);
+private:
+    void sort_endpoints();
 };
 
 } // TCPIP
